@@ -14,6 +14,7 @@ mod bytecode;
 mod include;
 mod stepwise;
 mod replmode;
+mod sourcesmode;
 
 use serde_json::{json, Value as J};
 use std::io::{BufRead, Write};
@@ -54,6 +55,7 @@ fn handle(req: &J) -> J {
     "include" => include::run(req),
     "stepwise" => stepwise::run(req),
     "repl" => replmode::run(req),
+    "sources" => sourcesmode::run(req),
     _ => json!({"error":"unknown mode"}),
   };
   if let Some(id) = req.get("id") {
